@@ -95,7 +95,9 @@ def g_cp_als(draw, tier):
     if c["dimorder"] is not None and c["optdims"] is not None and c["dimorder"]["v"][-1] not in c["optdims"]["v"]:
         c["optdims"] = None
     c["maxiters"] = draw(st.integers(1, 3))
-    c["printitn"] = draw(st.sampled_from([0, 1]))
+    # (round 4, class 13) the reporting option over its range: silent, every iteration, every k-th iteration, never
+    # reached (more than maxiters) - what is reported must not decide what happens to the operands
+    c["printitn"] = draw(st.sampled_from([0, 1, 1, 2, 3, 7]))
     c["fixsigns"] = draw(st.booleans())
     c["np_seed"] = draw(R.SEED)
     return c
@@ -120,7 +122,7 @@ def _(ctx, c):
     if od is not None:
         kw["optdims"] = od
     ctx.label("data-" + c["dkind"], "init-" + c["init"], "dimorder-" + ("none" if do is None else c["dimorder"]["form"]),
-              "optdims-" + ("none" if od is None else c["optdims"]["form"]))
+              "optdims-" + ("none" if od is None else c["optdims"]["form"]), f"printitn-{c['printitn']}")
     return ops, lambda: ttb.cp_als(X, c["rank"], **kw), None, echo_post(init_obj)
 
 
@@ -152,7 +154,8 @@ def g_cp_apr(draw, tier):
         c["zero_rows"] = len(zr)
     c["maxiters"] = draw(st.integers(1, 2))
     c["maxinneriters"] = draw(st.integers(1, 3))
-    c["printitn"] = draw(st.sampled_from([0, 1]))
+    c["printitn"] = draw(st.sampled_from([0, 1, 1, 2, 5]))
+    c["printinneritn"] = draw(st.sampled_from([0, 0, 1, 2]))
     c["precompinds"] = draw(st.booleans())
     c["np_seed"] = draw(R.SEED)
     return c
@@ -170,7 +173,9 @@ def _reg_apr(alg):
         if c["dkind"] == "sptensor":
             X = gen.build_sptensor(gen.sparse_case_from_dense(A))
         ops = {"data": X}
-        kw = dict(algorithm=alg, maxiters=c["maxiters"], maxinneriters=c["maxinneriters"], printitn=c["printitn"])
+        kw = dict(algorithm=alg, maxiters=c["maxiters"], maxinneriters=c["maxinneriters"], printitn=c["printitn"],
+                  printinneritn=c.get("printinneritn", 0))
+        ctx.label(f"printitn-{c['printitn']}", f"printinneritn-{c.get('printinneritn', 0)}")
         if alg != "mu":
             kw["precompinds"] = c["precompinds"]
         init_obj = None
@@ -211,7 +216,7 @@ def g_hosvd(draw, tier):
     else:
         c["ranks"] = None
     c["sequential"] = draw(st.booleans())
-    c["verbosity"] = draw(st.sampled_from([0, 1]))
+    c["verbosity"] = draw(st.sampled_from([0, 1, 1, 3, 6, 11]))  # (the code has thresholds at 0, 2 and 5)
     return c
 
 
@@ -230,7 +235,7 @@ def _(ctx, c):
     if rk is not None:
         kw["ranks"] = rk
     ctx.label("ranks-" + ("none" if rk is None else c["ranks"]["form"] + ("-with-zero" if 0 in c["ranks"]["v"] else "")),
-              "sequential" if c["sequential"] else "not-sequential")
+              "sequential" if c["sequential"] else "not-sequential", f"verbosity-{c['verbosity']}")
     return ops, lambda: ttb.hosvd(X, c["tol"], **kw)
 
 
@@ -256,7 +261,7 @@ def g_tucker(draw, tier):
         c["init_mats"] = R.d_mats(draw, shape, rk, "float")
     c["dimorder"] = d_order(draw, n)
     c["maxiters"] = draw(st.integers(1, 2))
-    c["printitn"] = draw(st.sampled_from([0, 1]))
+    c["printitn"] = draw(st.sampled_from([0, 1, 1, 2, 5]))
     c["np_seed"] = draw(R.SEED)
     return c
 
@@ -271,7 +276,7 @@ def _(ctx, c):
         ops["rank"] = rank
     init_obj = None
     if c["init"] == "list":
-        init_obj = [R.mat(m, s, r) for m, s, r in zip(c["init_mats"], c["shape"], c["rank"])]
+        init_obj = [R.mat(m, s, r, c) for m, s, r in zip(c["init_mats"], c["shape"], c["rank"])]
         ops["init"] = init_obj
         kw["init"] = init_obj
     else:
@@ -279,7 +284,8 @@ def _(ctx, c):
     do = dimorder_arg(c, "dimorder", ops)
     if do is not None:
         kw["dimorder"] = do
-    ctx.label("init-" + c["init"], "rank-" + c["rank_form"], "dimorder-" + ("none" if do is None else c["dimorder"]["form"]))
+    ctx.label("init-" + c["init"], "rank-" + c["rank_form"], "dimorder-" + ("none" if do is None else c["dimorder"]["form"]),
+              f"printitn-{c['printitn']}")
     return ops, lambda: ttb.tucker_als(X, rank, **kw), None, echo_post(init_obj)
 
 
@@ -318,6 +324,9 @@ def g_gcp(draw, tier):
         c["init_k"] = dict(shape=shape, rank=r, weights=d_pos(draw, r) if draw(st.booleans()) else [1.0] * r,
                            factors=[[d_pos(draw, r) for _ in range(s)] for s in shape])
     c["np_seed"] = draw(R.SEED)
+    # (round 4, class 13) reporting of the driver and of the stochastic optimizers (they log through the root logger)
+    c["printitn"] = draw(st.sampled_from([0, 0, 1, 2]))
+    c["opt_printitn"] = draw(st.sampled_from([0, 0, 1, 2]))
     return c
 
 
@@ -344,15 +353,17 @@ def _(ctx, c):
     if c["optimizer"] == "LBFGSB":
         opt = LBFGSB(maxiter=2, iprint=-1)
     else:
-        opt = {"SGD": SGD, "Adam": Adam, "Adagrad": Adagrad}[c["optimizer"]](max_iters=2, epoch_iters=2, printitn=0)
-    kw = dict(printitn=0)
+        opt = {"SGD": SGD, "Adam": Adam, "Adagrad": Adagrad}[c["optimizer"]](
+            max_iters=2, epoch_iters=2, printitn=c.get("opt_printitn", 0))
+    kw = dict(printitn=c.get("printitn", 0))
+    ctx.label(f"printitn-{c.get('printitn', 0)}", f"opt-printitn-{c.get('opt_printitn', 0)}")
     init_obj = None
     if c["init"] == "ktensor":
         init_obj = R.CS.build_ktensor(c["init_k"])
         ops["init"] = init_obj
         kw["init"] = init_obj
     elif c["init"] == "list":
-        init_obj = [np.array(f, dtype=float).reshape(s, c["rank"]) for f, s in zip(c["init_k"]["factors"], c["shape"])]
+        init_obj = [R.CS.aux(c, np.array(f, dtype=float).reshape(s, c["rank"])) for f, s in zip(c["init_k"]["factors"], c["shape"])]
         ops["init"] = init_obj
         kw["init"] = init_obj
     if c["mask"] is not None:
